@@ -73,7 +73,7 @@ PROPS = {
     "C15": dict(kind="run", proj="P_C15", mon="mon_true", property_files=("C15net",),
                 profiles=["params", "params_indexed", "hostile_append", "hostile_clear", "hostile_replace"],
                 quick=240, thorough=6000, finding_profiles=["parloop_all"]),
-    "C17": dict(kind="run", proj="P_C17", mon="mon_C17", property_files=("C20net",), py_monitor="petri_net_notices",
+    "C17": dict(kind="run", proj="P_C17", mon="mon_C17", property_files=("C20net", "C17obs"), extra_kinds=("obs",), py_monitor="petri_net_notices",
                 profiles=["observers", "observers_loops"], quick=200, thorough=5000),
     "C20": dict(kind="run", proj="P_C20", mon="mon_C20", property_files=("C20net",),
                 profiles=["listeners"], quick=200, thorough=5000, finding_profiles=["listeners_imm"]),
